@@ -597,7 +597,11 @@ func check(prop, tier string) int {
 	var wg, plainWG sync.WaitGroup
 	stopFile := filepath.Join(outDir, "plain-workers-done")
 	nPlain := nw - tc.Race
-	earlyStop := tier == "thorough" // quick: race workers run their full share
+	// Race-detector workers are several times slower. Where races are the
+	// point (C08, C14, C17) and in the quick tier they run their full share;
+	// elsewhere in the thorough tier they are a bonus and stop once the plain
+	// workers are done.
+	earlyStop := tier == "thorough" && prop != "C08" && prop != "C14" && prop != "C17"
 	if nPlain > 0 && tc.Race > 0 && earlyStop {
 		plainWG.Add(nPlain)
 		go func() {
